@@ -6,6 +6,13 @@ import ScrutModel.Lemmas.Exec
 for commands that run `(cmds i).1` ms and then end with `(cmds i).2`, and that reports a timeout
 iff the limit it was handed is reached first. Wall-clock enforcement itself (the runner really
 stops waiting at the limit) is runtime behaviour, exercised with real processes by the harness.
+
+`TC.wait` is `config.wait` of a test case: the time that passes before its command is started.
+Since fix 5800e20 the wait passes BEFORE the remaining document time is looked at, so it counts
+against the document limit: the limit handed to the runner for a test case is
+`min(per-test limit, document limit − (time elapsed before + its own wait))`
+(`C14_wait_counts`, `C14_limits_honest`). `busy cmds tcs idx` adds up the waits and the command
+durations of `tcs`.
 -/
 namespace Scrut.Props.C14
 open Scrut.Exec
@@ -50,15 +57,134 @@ theorem C14_enforced (cmds : Nat → Nat × Out) (i l : Nat) (h : l ≤ (cmds i)
     ((honest cmds i (some l)).1).status = .timeout :=
   Scrut.Exec.honest_enforced cmds i l h
 
-/-- the limits handed to the runner are exactly `effective perTest (total − elapsed)` -/
+/-- the first limit handed to the runner: `effective perTest (total − its own wait)` (nothing has
+elapsed before the first test case; without a wait this is `effective perTest total`) -/
 theorem C14_first_limit (total : Option Nat) (runner : Runner) (tc : TC) (rest : List TC) :
-    (execAll total runner (tc :: rest)).2[0]? = some (effective tc.timeout (totalLimit total)).2 :=
+    (execAll total runner (tc :: rest)).2[0]? =
+      some (effective tc.timeout ((totalLimit total).map (· - tc.wait))).2 :=
   Scrut.Exec.first_limit total runner tc rest
+
+/-- **C14** (the wait counts, fix 5800e20), one step of the loop for ANY runner: the limit handed
+to the runner for the head test case `tc` reached at time `now` is
+`effective tc.timeout (limit − (now + tc.wait))`; when the command completes (exit code other than
+the skip code, or detached) the loop goes on with the clock at `now + tc.wait + elapsed`; when the
+runner reports a timeout the loop ends with it, attributed to the document iff `effective` says so. -/
+theorem C14_wait_counts (limit : Option Nat) (runner : Runner) (tc : TC) (rest : List TC)
+    (idx now : Nat) (acc : List Out) (limits : List (Option Nat)) :
+    let eff := effective tc.timeout (limit.map (· - (now + tc.wait)))
+    let r := runner idx eff.2
+    (execLoop limit runner (tc :: rest) idx now acc limits).2[limits.length]? = some eff.2 ∧
+    (∀ c, r.1.status = .code c → c ≠ skipCodeOf tc →
+      execLoop limit runner (tc :: rest) idx now acc limits =
+        execLoop limit runner rest (idx + 1) (now + tc.wait + r.2) (acc ++ [r.1])
+          (limits ++ [eff.2])) ∧
+    (r.1.status = .detached →
+      execLoop limit runner (tc :: rest) idx now acc limits =
+        execLoop limit runner rest (idx + 1) (now + tc.wait + r.2) (acc ++ [detachedOut])
+          (limits ++ [eff.2])) ∧
+    (r.1.status = .timeout →
+      execLoop limit runner (tc :: rest) idx now acc limits =
+        (.timeout eff.1 idx (acc ++ [r.1]), limits ++ [eff.2])) :=
+  Scrut.Exec.wait_counts limit runner tc rest idx now acc limits
+
+/-- **C14** (every limit, honest runner): the limit handed to the runner for test case `d` is
+`min(per-test limit, document limit − (waits and durations of the test cases before + its own
+wait))`. -/
+theorem C14_limits_honest (total : Option Nat) (cmds : Nat → Nat × Out) (tcs : List TC)
+    (d : Nat) (lim : Option Nat) (h : (execAll total (honest cmds) tcs).2[d]? = some lim) :
+    ∃ tc, tcs[d]? = some tc ∧
+      lim = (effective tc.timeout
+        ((totalLimit total).map (· - (busy cmds (tcs.take d) 0 + tc.wait)))).2 :=
+  Scrut.Exec.honest_limits total cmds tcs d lim h
+
+/-- **C14** (the document limit bounds the document's clock, waits included): with an honest
+runner and a document limit `L`, every command that was started and run to its end — every started
+command `d`, except a last one that was stopped by a timeout — ended strictly before `L` on the
+document's clock: waits plus durations of the test cases `0..d` are `< L`. -/
+theorem C14_within_document_limit (total : Option Nat) (cmds : Nat → Nat × Out) (tcs : List TC)
+    (L : Nat) (hL : totalLimit total = some L) (d : Nat)
+    (hd : d < (execAll total (honest cmds) tcs).2.length)
+    (hc : d + 1 < (execAll total (honest cmds) tcs).2.length ∨
+      ∀ g i outs, (execAll total (honest cmds) tcs).1 ≠ .timeout g i outs) :
+    busy cmds (tcs.take (d + 1)) 0 < L :=
+  Scrut.Exec.honest_within_limit total cmds tcs L hL d hd hc
+
+/-- corollary: a document that ends regularly (no timeout, no skip, no aborted execution) took
+less than its limit, all waits and all durations added up -/
+theorem C14_ok_within_document_limit (total : Option Nat) (cmds : Nat → Nat × Out) (tcs : List TC)
+    (L : Nat) (hL : totalLimit total = some L) (outs : List Out)
+    (h : (execAll total (honest cmds) tcs).1 = .ok outs)
+    (hu : ∀ o ∈ outs, o.status ≠ .unknown) (hne : tcs ≠ []) :
+    busy cmds tcs 0 < L :=
+  Scrut.Exec.honest_ok_total total cmds tcs L hL outs h hu hne
+
+/-- **C14** (the command that is stopped): with an honest runner whose commands do not end as
+timeouts by themselves, a timeout at test case `i` means: the command ran at least as long as the
+limit `l` it was handed; `l` and the attribution `g` are
+`effective perTest (document limit − (waits and durations before + its own wait))`; so under a
+document limit `L` the command was given at most what was left of `L` after its wait (nothing, if
+the wait alone used `L` up). -/
+theorem C14_stopped_within_limit (total : Option Nat) (cmds : Nat → Nat × Out) (tcs : List TC)
+    (hfin : ∀ i, (cmds i).2.status ≠ .timeout)
+    (g : Bool) (i : Nat) (outs : List Out)
+    (h : (execAll total (honest cmds) tcs).1 = .timeout g i outs) :
+    ∃ tc l, tcs[i]? = some tc ∧ (execAll total (honest cmds) tcs).2[i]? = some (some l) ∧
+      l ≤ (cmds i).1 ∧
+      (g, some l) = effective tc.timeout
+        ((totalLimit total).map (· - (busy cmds (tcs.take i) 0 + tc.wait))) ∧
+      ∀ L, totalLimit total = some L → l ≤ L - (busy cmds (tcs.take i) 0 + tc.wait) :=
+  Scrut.Exec.honest_timeout_limit total cmds tcs hfin g i outs h
+
+/-- **C14** (witness of the repaired defect): document limit 2 s; a 10 ms command, a command that
+waits 1.5 s and then runs 1.5 s, a 10 ms command (`overrunTcs`, `overrunCmds`). The second command
+is handed `2000 − (10 + 1500) = 490` ms, is stopped, the timeout is attributed to the document, the
+third command is not run and is reported as skipped. -/
+theorem C14_wait_overrun_witness :
+    execAll (some 2000) (honest overrunCmds) overrunTcs =
+      (.timeout true 1 [⟨.code 0, true, true⟩, ⟨.timeout, false, false⟩], [some 2000, some 490]) ∧
+    runDocument overrunTcs (execAll (some 2000) (honest overrunCmds) overrunTcs).1 =
+      [(0, .ok), (1, .timeout), (2, .skipped)] :=
+  Scrut.Exec.wait_overrun_witness
+
+/-- the same document on the loop as it was BEFORE the fix (`execLoopOld`: remaining time first,
+wait afterwards): the second command was handed `2000 − 10 = 1990` ms ≥ 1500 ms and passed; the
+document's clock stood at 3010 ms (limit 2000 ms) when the third command was stopped at once. -/
+theorem C14_wait_overrun_before_fix :
+    execLoopOld (totalLimit (some 2000)) (honest overrunCmds) overrunTcs 0 0 [] [] =
+      (.timeout true 2 [⟨.code 0, true, true⟩, ⟨.code 0, true, true⟩, ⟨.timeout, false, false⟩],
+        [some 2000, some 1990, some 0]) :=
+  Scrut.Exec.wait_overrun_old
+
+/-- the fix changes nothing for documents in which no test case waits -/
+theorem C14_fix_only_affects_waits (limit : Option Nat) (runner : Runner) (tcs : List TC)
+    (h : ∀ tc ∈ tcs, tc.wait = 0) (idx now : Nat) (acc : List Out) (limits : List (Option Nat)) :
+    execLoopOld limit runner tcs idx now acc limits = execLoop limit runner tcs idx now acc limits :=
+  Scrut.Exec.execLoopOld_eq_of_no_wait limit runner tcs h idx now acc limits
+
+/-! The two limits of the bug report side by side: after 10 ms, with a wait of 1.5 s. -/
+example : effective none (some (2000 - 10)) = (true, some 1990) := by decide
+example : effective none (some (2000 - (10 + 1500))) = (true, some 490) := by decide
+
+/-! Non-vacuity of `C14_within_document_limit` / `C14_ok_within_document_limit`: a wait of 1 s and
+a command of 0.5 s fit into 2 s; `busy` adds them up. -/
+example :
+    (execAll (some 2000) (honest (fun _ => (500, ⟨.code 0, true, true⟩)))
+      [⟨none, .stdout, none, none, true, 1000⟩]) = (.ok [⟨.code 0, true, true⟩], [some 1000]) ∧
+    busy (fun _ => (500, (⟨.code 0, true, true⟩ : Out))) [⟨none, .stdout, none, none, true, 1000⟩] 0
+      = 1500 := by
+  decide
+
+/-! A wait that alone uses the document limit up: the command is handed 0 ms and stopped at once. -/
+example :
+    (execAll (some 1000) (honest (fun _ => (5, ⟨.code 0, true, true⟩)))
+      [⟨none, .stdout, none, none, true, 3000⟩]) =
+      (.timeout true 0 [⟨.timeout, false, false⟩], [some 0]) := by
+  decide
 
 /-! Non-vacuity: per-test 5 s, document 1 s, command 3 s → timeout attributed to the document. -/
 example :
     (execAll (some 1000) (honest (fun _ => (3000, ⟨.code 0, true, true⟩)))
-      [⟨none, .stdout, none, some 5000, true⟩]).1 = .timeout true 0 [⟨.timeout, false, false⟩] := by
+      [⟨none, .stdout, none, some 5000, true, 0⟩]).1 = .timeout true 0 [⟨.timeout, false, false⟩] := by
   decide
 
 end Scrut.Props.C14
